@@ -24,8 +24,9 @@ ASSUMPTIONS = [
     'between a truncated column surface and the top of its layer, and for block_contains_point above the top of the model, only '
     'self-consistency is required (the statement is silent there)',
     'lines that cross a column side at an angle whose sine is below 1e-3, or lie on a side, are outside the quantifier (counted)',
-    'a clipped length within [0.5, 2] x (1e-3 x longest side) may or may not be listed',
-    'entry/exit tolerance 1e-11 x (|coordinate| + line length) / sine of the flattest crossing angle: 4.5e4 rounding units; measured on '
+    'a clipped length within [0.5, 2] x (1e-3 x longest side) may or may not be listed; so may a shorter piece at an end of the '
+    'line (a line wholly inside one column is listed whatever its length); line end points within the point tolerance of a side are excluded',
+    'entry/exit tolerance 1e-11 x (|coordinate| + line length) / sine of the flattest crossing angle: 4.5e4 rounding units; 
     'the unchanged tree the largest deviation was below 2 % of it',
     'non-convex columns (a line may enter twice) are counted as excluded for line tracks',
 ]
@@ -132,8 +133,8 @@ def shipped_cases(tier):
 def searches(tier):
     q = tier == 'quick'
     return [Search('shipped', 'enum', lambda: shipped_cases(tier), shards=16),
-            Search('generated', 'hyp', lambda: case_strategy(q), n=960 if q else 24000, shards=16),
-            Search('small-column', 'hyp', small_column_case, n=320 if q else 8000, shards=16)]
+            Search('generated', 'hyp', lambda: case_strategy(q), n=1600 if q else 40000, shards=16),
+            Search('small-column', 'hyp', small_column_case, n=480 if q else 12000, shards=16)]
 
 
 # ---------------------------------------------------------------------- oracle
@@ -460,6 +461,9 @@ def track_checks(X, R, ln, ls):
     np, g = X.np, X.g
     a, b = ln
     L = geom_ref.dist(a, b)
+    margin = 1e-6 * max(X.diam) + 1e-9 * X.maxabs
+    if X.M.edge_dist(a, margin) is not None or X.M.edge_dist(b, margin) is not None:
+        R.exclude('line:end-point-within-tolerance-of-a-side'); return
     # ---- independent clipping
     clips = {}
     minsine = 1.0
@@ -483,7 +487,10 @@ def track_checks(X, R, ln, ls):
         R.exclude('line:rounding-comparable-to-the-clip-threshold'); return
     length = dict((i, (t1 - t0) * L) for i, (t0, t1) in clips.items())
     must = [i for i in clips if length[i] > 2.0 * thr[i]]
-    dontcare = [i for i in clips if 0.5 * thr[i] <= length[i] <= 2.0 * thr[i]]
+    # may or may not be listed: clips around the threshold, and short pieces at an end of the line (the statement only speaks
+    # of corner clips; a whole line inside one column is listed whatever its length)
+    at_end = lambda i: clips[i][0] <= 0.0 or clips[i][1] >= 1.0
+    dontcare = [i for i in clips if i not in must and (length[i] >= 0.5 * thr[i] or at_end(i))]
     R.label('line:' + ls['k'], 'line:crosses-%s' % ('0' if not must else ('1-2' if len(must) < 3 else '>=3')))
     if dontcare: R.label('line:has-borderline-clip')
     if len(must) >= 3: R.nontrivial()
@@ -512,7 +519,7 @@ def track_checks(X, R, ln, ls):
     for i in set(li):
         R.check(li.count(i) == 1, 'track:column-listed-twice', '%s: column %r' % (desc, X.cols[i].name))
     for i in li:
-        if not R.check(i in clips and length[i] >= 0.5 * thr[i], 'track:lists-column-not-crossed',
+        if not R.check(i in must or i in dontcare, 'track:lists-column-not-crossed',
                        lambda: '%s: column %r listed, clipped length %r' % (desc, X.cols[i].name, length.get(i))): break
     worst = 0.0
     prev = None
